@@ -384,7 +384,8 @@ def _ref_task(item):
     cov.uninstall()
     # module-level state this call replaced (not merely added to): state every caller shares. The lines
     # of the executed library functions that name the global are where such a call can be disturbed.
-    replaced = S.GlobalState.replaced(state0, S.GlobalState.snapshot())
+    state1 = S.GlobalState.snapshot()
+    replaced = S.GlobalState.replaced(state0, state1)
     gnames = {p[1].split(".")[0] for p in replaced} | {p[1].split(".")[-1] for p in replaced}
     glocs = set()
     for code in cov.by_code:
@@ -401,6 +402,16 @@ def _ref_task(item):
     O.execute(Z.op_by_name[opname], env)
     writes.uninstall()
     warm.uninstall()
+    # the same call once more must leave module-level state exactly as it found it: what it adds, removes or
+    # replaces now is per-call state, not a cache being filled
+    state2 = S.GlobalState.snapshot()
+    moved = [p for p in set(state1) | set(state2) if state1.get(p) != state2.get(p)]
+    if moved:
+        names = {p[1].split(".")[0] for p in moved} | {p[1].split(".")[-1] for p in moved}
+        for code in cov.by_code:
+            if names & (set(code.co_names) | set(code.co_freevars)):
+                rec["cov_gwrites"] = sorted(set(rec["cov_gwrites"]) | {S.short_loc(code, ln) for _, _, ln in code.co_lines() if ln is not None and ln > code.co_firstlineno})
+        rec["cov_gslots"] = sorted(set(rec["cov_gslots"]) | {f"{p[0]}:{p[1]}" for p in moved})
     rec["cov_writes"] = sorted(writes.locs)
     rec["cov"] = sorted(cov.locs)
     rec["cov_first"] = sorted(cov.locs - warm.locs)
